@@ -1,3 +1,4 @@
+// vx: label-insensitive
 // Bounded end-to-end replay of the compaction pipeline: the REAL text (R1 only) of the cut-point planner, both auto entry
 // points, both spawn functions, the executor, the manual checkpoint function, inflight detection, the checkpoint "latest wins"
 // scan, the append_* writers they use, the whole summary renderer module and the summary constructor run against in-memory
